@@ -41,6 +41,32 @@ pub fn enc_packets(a: &[u64]) -> Vec<u64> {
     out
 }
 
+/// [F,T,Z,N,Al, nrep, data...] -> the packets of every block from an independently constructed
+/// SourceBlockEncoder::new(sbn, config, block bytes) (block ranges by Partition[Kt, Z], the last block padded
+/// with zeros), in the order of Encoder::get_encoded_packets: comparable with enc_packets token by token
+pub fn enc_packets_per_block(a: &[u64]) -> Vec<u64> {
+    let c = cfg(a);
+    let data = bytes(&a[6..]);
+    let t = a[1] as usize;
+    let kt = data.len().div_ceil(t);
+    let z = a[2] as usize;
+    let (kl, ks, zl) = (kt.div_ceil(z), kt / z, kt - (kt / z) * z);
+    let mut out = vec![];
+    let mut off = 0usize;
+    for sbn in 0..z {
+        let k = if sbn < zl { kl } else { ks };
+        let mut blk = vec![0u8; k * t];
+        let end = (off + k * t).min(data.len());
+        blk[..end - off].copy_from_slice(&data[off..end]);
+        off += k * t;
+        let e = SourceBlockEncoder::new(sbn as u8, &c, &blk);
+        for p in e.source_packets().iter().chain(e.repair_packets(0, a[5] as u32).iter()) {
+            push_packet(&mut out, p);
+        }
+    }
+    out
+}
+
 /// [F,T,Z,N,Al, rot, data...] -> all source packets (rotated by rot) through Decoder::decode; result
 pub fn layout_roundtrip(a: &[u64]) -> Vec<u64> {
     let c = cfg(a);
@@ -58,6 +84,53 @@ pub fn layout_roundtrip(a: &[u64]) -> Vec<u64> {
         Some(b) => std::iter::once(1u64).chain(b.iter().map(|&x| x as u64)).collect(),
         None => vec![0],
     }
+}
+
+/// as layout_roundtrip, through add_new_packet / get_result (answer after every packet: once Some, it must stay
+/// the same value); [F,T,Z,N,Al, rot, data...] -> 1 bytes... | 0 | 9 (the answer changed)
+pub fn layout_roundtrip_api(a: &[u64]) -> Vec<u64> {
+    let c = cfg(a);
+    let data = bytes(&a[6..]);
+    let enc = Encoder::new(&data, c);
+    let mut pk = enc.get_encoded_packets(0);
+    let r = (a[5] as usize) % (pk.len() + 1);
+    pk.rotate_left(r);
+    let mut dec = Decoder::new(c);
+    let mut res: Option<Vec<u8>> = None;
+    for p in pk {
+        dec.add_new_packet(p);
+        let now = dec.get_result();
+        if res.is_some() && now != res {
+            return vec![9];
+        }
+        res = now;
+    }
+    match res {
+        Some(b) => std::iter::once(1u64).chain(b.iter().map(|&x| x as u64)).collect(),
+        None => vec![0],
+    }
+}
+
+/// Decoder for an object too large to materialise: [F,T,Z,N,Al, n, (sbn, esi)*n] -> per packet 0 (None) or
+/// 1 (Some) followed by the length of the returned object; the payload of packet (sbn, esi) is T bytes
+/// (sbn * 31 + esi * 7 + j) mod 256.  With fewer than ceil(F/T) packets every answer must be None.
+pub fn dec_feed(a: &[u64]) -> Vec<u64> {
+    let c = ObjectTransmissionInformation::new(a[0], a[1] as u16, a[2] as u8, a[3] as u16, a[4] as u8);
+    let n = a[5] as usize;
+    let mut dec = Decoder::new(c);
+    let mut out = vec![];
+    for s in a[6..6 + 2 * n].chunks(2) {
+        let payload: Vec<u8> = (0..a[1]).map(|j| ((s[0] * 31 + s[1] * 7 + j) % 256) as u8).collect();
+        let p = EncodingPacket::new(PayloadId::new(s[0] as u8, s[1] as u32), payload);
+        match dec.decode(p) {
+            None => out.push(0),
+            Some(b) => {
+                out.push(1);
+                out.push(b.len() as u64);
+            }
+        }
+    }
+    out
 }
 
 /// [F,T,Z,N,Al, block, start, n, data...] -> repair_packets(start, n) of that block
